@@ -44,11 +44,14 @@ DialBegin ==
   /\ loop = "trying" /\ ~stopped /\ nconn < MaxConn
   /\ attempts' = Append(attempts, now) /\ loop' = "dialing"
   /\ UNCHANGED <<now, stopped, live, nconn, made, lost, lostexc, wake, lastProbe, lastAnswer, probes, afterStop, eofPending, nextCheck, lastFail, orphans>>
+DialDue == Fl = "async" /\ Dev = "tcp" /\ loop = "dialing" /\ ~stopped /\ now >= attempts[Len(attempts)] + R
 DialEnd(ok) ==
   /\ loop = "dialing"
   \* asyncio: stop() cancels the task of a reconnect, so a dial that is still answered after stop() can only be one of
   \* start()'s own loop (no connection was ever made); the threaded loops cannot recall a dial at all
   /\ (stopped /\ Fl = "async") => nconn = 0
+  \* asyncio TCP: the dial is wrapped in wait_for(reconnect_timeout) - once that time is up it can only have failed
+  /\ DialDue => ~ok
   /\ IF stopped
        THEN /\ loop' = "idle" /\ orphans' = (IF ok THEN orphans + 1 ELSE orphans)
             /\ UNCHANGED <<nconn, live, made, lastProbe, lastAnswer, wake, lastFail, nextCheck>>
@@ -127,8 +130,8 @@ Stop ==
 Next == Start \/ Attempt(TRUE) \/ Attempt(FALSE) \/ DialBegin \/ DialEnd(TRUE) \/ DialEnd(FALSE) \/ ReadError \/ WriteError \/ PeerClose
         \/ (\E d \in 1..(2 * R + 3) : Tick(d)) \/ Watchdog \/ Answer \/ Stop
 \* the system is never late: whatever is due (an attempt, a probe, a drop) happens before the clock moves
-Urgent == loop = "trying" \/ (~stopped /\ (DropDue \/ ProbeDue))
-NextTimed == (Urgent /\ (Attempt(TRUE) \/ Attempt(FALSE) \/ DialBegin \/ Watchdog \/ Stop))
+Urgent == loop = "trying" \/ (~stopped /\ (DropDue \/ ProbeDue)) \/ DialDue
+NextTimed == (Urgent /\ (Attempt(TRUE) \/ Attempt(FALSE) \/ DialBegin \/ Watchdog \/ Stop \/ (DialDue /\ DialEnd(FALSE))))
              \/ (~Urgent /\ Next)
 Spec == Init /\ [][NextTimed]_vars
 
